@@ -20,6 +20,7 @@ from . import common  # noqa: F401
 from .enclib import BES, bits_of, parse_answer, parse_col, parse_cols, target_limb_and_scale
 
 LAYOUTS = ["glwe", "gglwe", "ggsw", "ksk", "atk", "tsk", "g2g"]
+MODEL_LAYOUTS = ("glwe", "gglwe", "ggsw", "ksk", "tsk")
 
 
 def gen_case(rng, idx):
@@ -48,9 +49,27 @@ def gen_case(rng, idx):
         c["rank_in"] = rank
     if lay == "atk":
         c["p"] = rng.choice([-1, 1, 3, 5, -3, 7, -5])
+    if lay == "tsk" and rng.chance(1, 2):
+        # tensor secrets are normalised at radix 2^17: at a small key radix every coefficient carries through several limbs
+        c["b"] = b = rng.range(2, 4)
+        c["k"] = c["kxe"] = (size - 1) * b + rng.range(1, b)
     if lay in ("gglwe", "ggsw"):
         cols = c["rank_in"] if lay == "gglwe" else 1
-        c["pt"] = ";".join(",".join(str(rng.range(-3, 3)) for _ in range(n)) for _ in range(cols))
+        # caller-supplied ScalarZnx: small, at the carry boundary 2^(b-1), or well above the radix (carries into the limbs
+        # above the gadget limb of the routine's temporary)
+        mode = rng.range(0, 3)
+        half = 1 << (b - 1)
+
+        def coef():
+            if mode == 0:
+                return rng.range(-3, 3)
+            if mode == 1:
+                return rng.choice([half, -half, half - 1, -half - 1, 2 * half, -2 * half, 0, half + 1])
+            if mode == 2:
+                return rng.range(-(8 * half), 8 * half)
+            return rng.range(-(1 << min(3 * b, 40)), 1 << min(3 * b, 40))
+        c["pt"] = ";".join(",".join(str(coef()) for _ in range(n)) for _ in range(cols))
+        c["ptmode"] = mode
     if lay == "glwe":
         c["ptv"] = "|".join(",".join(str(rng.range(-(1 << (b - 1)), (1 << (b - 1)) - 1)) for _ in range(n)) for _ in range(size))
     return c
@@ -76,7 +95,10 @@ def model_line(i, c, a):
     if c["layout"] == "glwe":
         e = parse_col(a["e"])
         return f"{i} enc glwe_cmp {head} sk={a['sk']} xa={a['child']} e={','.join(str(x) for x in e[limb])} pt={a['ptv']}"
-    op = "cmp_gglwe" if c["layout"] == "gglwe" else "cmp_ggsw"
+    if c["layout"] == "tsk":
+        return (f"{i} enc cmp_tsk {head} dnum={c['dnum']} dsize={c['dsize']} sk={a['sk']} top={a['top']} "
+                f"seeds={a['seeds']} child={a['child']} es={err_polys(a['e'], limb)}")
+    op = "cmp_ggsw" if c["layout"] == "ggsw" else "cmp_gglwe"
     return (f"{i} enc {op} {head} rank_in={c['rank_in']} dnum={c['dnum']} dsize={c['dsize']} sk={a['sk']} pt={a['pt']} top={a['top']} "
             f"seeds={a['seeds']} child={a['child']} es={err_polys(a['e'], limb)}")
 
@@ -108,11 +130,12 @@ def run(ctx):
             ml, idx = [], []
             per_layout = {}
             cells_total = 0
+            wrappers_total = 0
             for i, (c, line) in enumerate(zip(cases, hout)):
                 _, st, a = parse_answer(line)
                 lay = c["layout"]
                 per_layout[lay] = per_layout.get(lay, 0) + 1
-                ctx.count_case((lay, c["be"], c["n"], c["rank"], c["rank_in"], c["dnum"], c["dsize"], c["size"], min(c["b"], 18) // 4, c["dist"][:2]))
+                ctx.count_case((lay, c["be"], c["n"], c["rank"], c["rank_in"], c["dnum"], c["dsize"], c["size"], min(c["b"], 18) // 4, c["dist"][:2], c.get("ptmode", -1)))
                 if st != "ok":
                     ctx.disagreements += 1
                     if len(broken) < 20:
@@ -128,7 +151,8 @@ def run(ctx):
                          "oracle": f"cells={cells} masks={a['masks']} phases-equal={a['dec']} cellenc={a['cellenc']} ser={a['ser']} seeds-in-loop-order={a['seedwords']}",
                          "rerun": f"printf '%s\\n' '{hl[i]}' | harness/target/release/pvh cmp"}
                     witness = witness or w
-                if lay in ("glwe", "gglwe", "ggsw"):
+                wrappers_total += int(a.get("wrappers", 0))
+                if lay in MODEL_LAYOUTS:
                     ml.append(model_line(i, c, a))
                     idx.append(i)
                 if len(ctx.samples) < 8 and i % 83 == 0:
@@ -153,6 +177,7 @@ def run(ctx):
                         if len(broken) < 20:
                             broken.append(f"model/implementation disagree ({c['layout']}): {hl[i][:240]}")
                             ctx.cov.setdefault("first_disagreement", {"harness": hl[i], "impl": hout[i][:1500], "model": ln[:1500]})
+                ctx.cov["lwe_wrapper_objects"] = wrappers_total
                 ctx.cov["model_tied_objects"] = len(ml)
                 ctx.cov["model_agree"] = agree
             # compressed blind-rotation key of poulpy-bin-fhe (pvh rndb brkc_check): same per-cell criteria
@@ -167,6 +192,36 @@ def run(ctx):
             if rcb != 0 or len(bout) != len(bl):
                 broken.append(f"pvh rndb brkc_check failed rc={rcb} {berr[-300:]}")
             else:
+                # model recomputation of the whole compressed blind-rotation key (every GGSW, every cell, every stored seed)
+                bml, bidx = [], []
+                for j, (req, line) in enumerate(zip(bl, bout)):
+                    _, st, a = parse_answer(line)
+                    if st != "ok":
+                        continue
+                    kv = dict(x.split("=", 1) for x in req.split()[2:] if "=" in x)
+                    bb, kb = int(kv["b"]), int(kv["kbrk"])
+                    limb = target_limb_and_scale(kb, bb)[0]
+                    bml.append(f"{j} enc cmp_brk bits={bits_of(kv['be'])} n={kv['n']} b={bb} k={kb} kxe={kb} size={a['size']} rank={kv['rank']} dnum={a['dnum']} "
+                               f"sk={a['sk']} sklwe={a['sklwe']} top={a['top']} gseeds={a['gseeds']} sub={a['sub']} seeds={a['seeds']} child={a['child']} "
+                               f"es={err_polys(a['e'], limb)}")
+                    bidx.append(j)
+                rcm, bmout, bmerr = ctx.run_lines(drv, [], bml, timeout=3000)
+                if rcm != 0 or len(bmout) != len(bml):
+                    broken.append(f"pdriver cmp_brk failed rc={rcm} lines={len(bmout)}/{len(bml)} {bmerr[-300:]}")
+                else:
+                    bagree = 0
+                    for j, ln in zip(bidx, bmout):
+                        _, st, a = parse_answer(bout[j])
+                        t = ln.split()
+                        if len(t) >= 3 and t[1] == a["seeds"] and t[2] == a["obj"]:
+                            bagree += 1
+                        else:
+                            ctx.disagreements += 1
+                            if len(broken) < 20:
+                                broken.append(f"model/implementation disagree (brkc): {bl[j]}")
+                                ctx.cov.setdefault("first_disagreement", {"harness": bl[j], "impl": bout[j][:1500], "model": ln[:1500]})
+                    ctx.cov["model_tied_brkc"] = len(bml)
+                    ctx.cov["model_agree_brkc"] = bagree
                 for req, line in zip(bl, bout):
                     _, st, a = parse_answer(line)
                     per_layout["brkc"] = per_layout.get("brkc", 0) + 1
@@ -182,6 +237,77 @@ def run(ctx):
                         witness = witness or {"case": req, "implementation": line, "object": "BlindRotationKeyCompressed",
                                               "oracle": "a decompressed cell of the compressed blind-rotation key differs from the standard encryption under the stored seed",
                                               "rerun": f"printf '%s\\n' '{req}' | harness/target/release/pvh rndb"}
+            # LWECompressed (no producing routine in poulpy-core): built from its wire format out of a standard LWE ciphertext with
+            # source_xa = Source::new(seed); decompress_lwe into a receiver of the same radix and size must return that ciphertext for
+            # every LWE dimension; a receiver with another radix or number of limbs must be refused (assertion) — on both sides
+            ll, lmeta = [], []
+            for be in BES:
+                for j in range(12 if quick else 120):
+                    b = rng.range(3, 17)
+                    size = rng.range(1, 3)
+                    k = (size - 1) * b + rng.range(1, b)
+                    nl = [1, 2, 3, 4, 5, 6, 7, 8, 2, 5, 3, 8][j % 12]
+                    ptv = "|".join(str(rng.range(-(1 << (b - 1)), (1 << (b - 1)) - 1)) for _ in range(size))
+                    extra, mism = "", "none"
+                    if j % 12 in (8, 9):                 # other radix, same number of limbs
+                        rb = b + 1 if b < 17 else b - 1
+                        extra, mism = f" resb={rb} resk={size * rb}", "base2k"
+                    elif j % 12 in (10, 11):             # same radix, one limb more
+                        extra, mism = f" resb={b} resk={(size + 1) * b}", "size"
+                    ll.append(f"{len(ll)} lwec be={be} n=8 nl={nl} b={b} k={k} kxe={k} rank=1 dnum=1 dsize=1 dist={rng.choice(['tp:0.5', 'bp:0.5'])} "
+                              f"sxs={rng.next()} sxa={rng.next()} sxe={rng.next()} ptv={ptv}{extra}")
+                    lmeta.append(mism)
+            rcl, lout, lerr = ctx.run_lines(binp, ["cmp"], ll, timeout=3000)
+            if rcl != 0 or len(lout) != len(ll):
+                broken.append(f"pvh cmp lwec failed rc={rcl} {lerr[-300:]}")
+            else:
+                lml = []
+                for j, (req, line) in enumerate(zip(ll, lout)):
+                    _, st, a = parse_answer(line)
+                    kvr = dict(x.split("=", 1) for x in req.split()[2:] if "=" in x)
+                    per_layout["lwec"] = per_layout.get("lwec", 0) + 1
+                    ctx.count_case(("lwec", kvr["be"], kvr["nl"], kvr["b"], kvr["k"], lmeta[j]))
+                    if st != "ok":
+                        ctx.disagreements += 1
+                        broken.append(f"implementation failed: {req} -> {line[:160]}")
+                        lml.append(f"{j} enc lwe_dec b=1 nl=0 body=0 xa=0")
+                        continue
+                    lml.append(f"{j} enc lwe_dec b={kvr['b']} nl={kvr['nl']} resb={kvr.get('resb', kvr['b'])} ressize={a['ressize']} body={a['body']} xa={a['child']}")
+                rcm, lmout, lmerr = ctx.run_lines(drv, [], lml, timeout=3000)
+                if rcm != 0 or len(lmout) != len(lml):
+                    broken.append(f"pdriver lwe_dec failed rc={rcm} {lmerr[-200:]}")
+                else:
+                    lagree = 0
+                    refused = 0
+                    for j, (req, line, ln) in enumerate(zip(ll, lout, lmout)):
+                        _, st, a = parse_answer(line)
+                        if st != "ok":
+                            continue
+                        t = ln.split()
+                        model = t[1] if len(t) > 1 else ""
+                        impl_panic = a["dec"] == "-2"
+                        impl_assert = impl_panic and a.get("panic", "").startswith("assert")
+                        if model == "panic":
+                            okm = impl_assert
+                            refused += okm
+                        else:
+                            okm = (not impl_panic) and model == a["obj"] and a["ser"] == "1"
+                        if okm:
+                            lagree += 1
+                        else:
+                            ctx.disagreements += 1
+                            if len(broken) < 20:
+                                broken.append(f"model/implementation disagree (lwec): {req} -> {line[:200]} / model {ln[:120]}")
+                        # the property itself: same radix and size => decompress_lwe returns the standard ciphertext, whatever the dimension
+                        if lmeta[j] == "none" and a["dec"] != "1":
+                            ctx.oracle_failures += 1
+                            witness = witness or {"case": req, "implementation": line[:400], "object": "LWECompressed",
+                                                  "oracle": "decompress_lwe does not return the standard LWE ciphertext encrypted with Source::new(seed) "
+                                                            "(theorem C19.lwe_decompress)",
+                                                  "rerun": f"printf '%s\\n' '{req}' | harness/target/release/pvh cmp"}
+                    ctx.cov["model_tied_lwec"] = len(lml)
+                    ctx.cov["model_agree_lwec"] = lagree
+                    ctx.cov["lwec_refused_on_both_sides"] = refused
             ctx.cov["objects_by_layout"] = per_layout
             ctx.cov["cells_total"] = cells_total
             ctx.cov["by_backend"] = {be: sum(1 for c in cases if c["be"] == be) for be in BES}
